@@ -1,6 +1,6 @@
 (** C21 — content streams parse back to the operators that were written; parsing arbitrary bytes
     as a content stream always terminates.  Only statements here; proofs live in theories/C21. *)
-From OxVerif Require Import Base.Util C21.Num C21.Tok C21.Model C21.Total C21.Lexemes C21.Roundtrip C21.Proofs.
+From OxVerif Require Import Base.Util C21.Num C21.Tok C21.Model C21.Total C21.Lexemes C21.Roundtrip C21.Proofs C21.Full C21.Ulp.
 Open Scope N_scope.
 
 (** termination: for every byte string the tokenizing loop needs at most |input|+1 steps (the fuel
@@ -109,9 +109,68 @@ Example c21_ops_roundtrip_partial_nonvacuous :
   forallb mvp_op ops = true /\ regular ops = true.
 Proof. split; reflexivity. Qed.
 
-(** FULL STATEMENT (kept visible; NOT proved for every operator shape — see notes/C21.md):
-      c21_ops_roundtrip : forall ops, regular ops = true -> parse (serialize ops) = expected ops.
-    Missing: the operator-level composition for names, colours, sc/SC, J/j/Tr, dash, Tf, Tj, TJ,
-    comments and BDC/EMC (their lexeme lemmas are c21_escape_unescape, c21_number_token,
-    c21_hex_token, c21_name_token); those shapes are covered by c21_roundtrip_nonvacuous and by the
-    correspondence on every run. *)
+(** one operator in front of any continuation: every [Op] variant the typed writer API emits
+    (all but the untyped Raw), in the shape the list induction consumes.  The per-class lemmas are
+    Full.rt_clipstroke / rt_named / rt_color / rt_comps / rt_small / rt_dash / rt_font / rt_showtext /
+    rt_showhex / rt_tj / rt_comment / rt_bdc / rt_bdcactual / rt_emc and Roundtrip.roundtrip_op. *)
+Theorem c21_op_roundtrip : forall o rest, op_regular o = true ->
+  parse (ser_op o ++ rest) = expected_op o ++ parse rest.
+Proof. exact roundtrip_op_full. Qed.
+Check c21_op_roundtrip : forall o rest, op_regular o = true ->
+  parse (ser_op o ++ rest) = expected_op o ++ parse rest.
+Print Assumptions c21_op_roundtrip.
+
+(** THE FULL STATEMENT: every sequence of regular operators — names (cs CS gs ri Do sh), colours
+    (g G rg RG k K with 3 decimals, sc/SC with 4), J j Tr, dash arrays, Tf (integer, beyond-i32 and
+    fractional sizes), Tj (escaped literal and hex), TJ arrays, `W S`, comments, BDC with /MCID and
+    /ActualText property dictionaries, EMC, and the numeric/operand-less operators of the partial
+    theorem — with every f64 operand (NaN, infinities, -0, denormals, huge values) parses back to the
+    source operators with each operand rounded as documented.  [regular] excludes only: Raw, names
+    with delimiter/#/non-UTF-8 bytes (C30-name-raw), lower-case/non-hex hex operands, comments
+    containing LF, MCIDs >= 2^31. *)
+Theorem c21_ops_roundtrip : forall ops, regular ops = true -> parse (serialize ops) = expected ops.
+Proof. exact ops_roundtrip. Qed.
+Check c21_ops_roundtrip : forall ops, regular ops = true -> parse (serialize ops) = expected ops.
+Print Assumptions c21_ops_roundtrip.
+Example c21_ops_roundtrip_nonvacuous : regular sample_ops = true /\ length sample_ops = 22%nat.
+Proof. split; reflexivity. Qed.
+
+(** WHAT THE DOCUMENTED ROUNDING IS, against the source operand.  For a finite operand (sign s, value
+    m * 2^e) printed with k decimals, with n the printed integer (units of 10^-k) and 2^e written
+    PP e / MM e (all comparisons cross-multiplied, integers only):
+      print:  | n / 10^k - m * 2^e |  <=  10^-k / 2;
+      read:   the f32 that comes back is (sign s, significand q, exponent eb) with
+              | q * 2^eb - n / 10^k |  <=  2^eb / 2,  eb >= -149,  and (q, eb) normalised
+              (2^23 <= q < 2^24, or eb = -149 and q < 2^23) so that 2^eb IS the f32 ulp of the result;
+      the bit pattern [rnd k x] decodes (IEEE binary32 fields) to exactly (s, q, eb), or, when
+      eb > 104, is an infinity (the known class C21-f32-overflow).
+    Hence | read-back - source | <= 10^-k / 2 + ulp / 2: half a unit of the last printed decimal
+    plus half an f32 ulp — tighter than "one ulp" next to the print error, and the print error is
+    the documented precision (2, 3 or 4 decimals).  NaN and infinities are written as 0
+    (Ulp.rnd_nonfinite). *)
+Theorem c21_rnd_bound : forall k s m e,
+  let n := fixed_mag k m e in
+  let v := (Z.of_N m * Z.of_N (10 ^ k))%Z in
+  (2 * Z.of_N n * MM e <= 2 * v * PP e + MM e /\ 2 * v * PP e <= 2 * Z.of_N n * MM e + MM e)%Z
+  /\ exists q eb,
+       bin_round 24 (-149) n (10 ^ k) = (q, eb)
+       /\ half_ulp (Z.of_N n) (Z.of_N (10 ^ k)) (Z.of_N q) eb
+       /\ (-149 <= eb)%Z /\ q < 2 ^ 24 /\ (2 ^ 23 <= q \/ (eb = (-149)%Z /\ q < 2 ^ 23))
+       /\ (if (104 <? eb)%Z then f32_is_inf (rnd k (FFin s m e)) = true
+           else f32_decode (rnd k (FFin s m e)) = Some (s, q, eb)).
+Proof. exact rnd_bound. Qed.
+Check c21_rnd_bound : forall k s m e,
+  let n := fixed_mag k m e in
+  let v := (Z.of_N m * Z.of_N (10 ^ k))%Z in
+  (2 * Z.of_N n * MM e <= 2 * v * PP e + MM e /\ 2 * v * PP e <= 2 * Z.of_N n * MM e + MM e)%Z
+  /\ exists q eb,
+       bin_round 24 (-149) n (10 ^ k) = (q, eb)
+       /\ half_ulp (Z.of_N n) (Z.of_N (10 ^ k)) (Z.of_N q) eb
+       /\ (-149 <= eb)%Z /\ q < 2 ^ 24 /\ (2 ^ 23 <= q \/ (eb = (-149)%Z /\ q < 2 ^ 23))
+       /\ (if (104 <? eb)%Z then f32_is_inf (rnd k (FFin s m e)) = true
+           else f32_decode (rnd k (FFin s m e)) = Some (s, q, eb)).
+Print Assumptions c21_rnd_bound.
+Example c21_rnd_bound_instance :          (* 0.125 = 2^-3 with 2 decimals: ties-to-even print 0.12, read 0x3DF5C28F *)
+  fixed 2 (FFin false 1 (-3)) = (false, 12) /\ rnd 2 (FFin false 1 (-3)) = 1039516303
+  /\ f32_decode 1039516303 = Some (false, 16106127, (-27)%Z).
+Proof. repeat split; reflexivity. Qed.
